@@ -139,6 +139,11 @@ def tree():
     put('BASE/root/index.html', OUT_MARK)             # an ancestor's name in another letter case
     put('BASE/root/secret.txt', OUT_MARK)
     put('Base/ROOT/secret.txt', OUT_MARK)
+    # directories INSIDE the root whose names are compatibility characters that NFKC / case folding turn into path syntax
+    put('base/root/\u2025/decoy.txt', IN_MARK)            # TWO DOT LEADER          -> '..'
+    put('base/root/\uff0e\uff0e/top.txt', IN_MARK)        # FULLWIDTH FULL STOP x2  -> '..'
+    put('base/root/sub/\u2024\u2024/index.html', IN_MARK)  # ONE DOT LEADER x2       -> '..'
+    put('base/root/a\uff0fb.txt', IN_MARK)                # FULLWIDTH SOLIDUS       -> '/'
     # trees OUTSIDE the root whose absolute path embeds the root's absolute path (backup / rsync -R / chroot copies)
     put('backup' + t + '/base/root/secret.txt', OUT_MARK)
     put('backup' + t + '/base/root/index.html', OUT_MARK)
@@ -172,7 +177,7 @@ ROOTS = [
 ]
 SEGS_IN = ['index.html', 'sub', 'page.txt', 'deep', 'x.txt', 'a b.txt', 'emptydir', 'back\\slash.txt', 'root2', 'inner.txt']
 SEGS_OUT = ['root2', 'rootX', 'roo', 'root', 'base', 'Root', 'ROOT', 'BASE', 'Base', 'secret.txt', 'decoy.txt', 'top.txt', 'work', 'etc', 'passwd']
-SEGS_SPECIAL = ['.', '..', '..', '..', '', '...', '. .', '..\\', '\\..', 'a\x00b', '\x00', '%2e%2e', '.\\.',
+SEGS_SPECIAL = ['.', '..', '..', '..', '', '...', '\u2025', '\ufe52\ufe52', '\uff3c', '\ufe68', '\u2026', '. .', '..\\', '\\..', 'a\x00b', '\x00', '%2e%2e', '.\\.',
                 'SUB', '\u017fub', 'Index.html', '\udc80', '\u2215', '\uff0f', '\uff0e\uff0e', '\u2024\u2024', '\xfc.txt', '.\u200b.']
 SEPS = ['/', '/', '/', '\\', '//', '/\\', '\\/']
 PREFIXES = ['', '', '', '/', '//', '///', '\\', '{T}/', '{T}/base/root2/', '/etc/passwd/', '{T}/base/root/', '../', '/../',
@@ -218,6 +223,11 @@ def corpus():
         mk(A, '{T}', 'index.html', deny=['isfile']),
         mk(A, '{T}', 'index.html', deny=['exists']),
         mk(A, '{T}', '../root2/secret.txt', method='HEAD', rng='bytes=0-1'),
+        # compatibility characters are not path syntax (seeded change C16/12): real directories of that name inside the root
+        mk(A, '{T}', '\u2025/decoy.txt'), mk(A, '{T}', '\uff0e\uff0e/top.txt'), mk(A, '{T}', 'sub/\u2024\u2024/index.html'),
+        mk(A, '{T}', '\u2025/root2/secret.txt'), mk(A, '{T}', '\uff0e\uff0e/root2/secret.txt'), mk(A, '{T}', '\uff0e\uff0e/\uff0e\uff0e/top.txt'),
+        mk(A, '{T}', '\u2025\uff0froot2\uff0fsecret.txt'), mk(A, '{T}', 'a\uff0fb.txt'), mk('root', '{T}/base', '\u2025/root2/index.html'),
+        mk(A + '/\u2025', '{T}', 'decoy.txt'), mk(A + '/\u2025', '{T}', '../index.html'),
         # a path that merely CONTAINS the root's absolute path is outside (seeded change C16/10)
         mk(A, '{T}', '../../backup{T}/base/root/secret.txt'), mk(A, '{T}', '../../backup{T}/base/root/index.html'),
         mk(A + '/', '{T}', '../mirror{T}/base/root/sub/page.txt'), mk('root', '{T}/base', '../root2{T}/base/root/secret.txt'),
@@ -256,7 +266,13 @@ ESCAPES = [['..', 'root2', 'secret.txt'], ['..', 'root2', 'index.html'], ['..', 
            ['..', '..', 'Base', 'ROOT', 'secret.txt'], ['sub', '..', '..', 'Root', 'secret.txt'],
            ['..', '..', 'backup{T}', 'base', 'root', 'secret.txt'], ['..', '..', 'backup{T}', 'base', 'root', 'index.html'],
            ['..', 'mirror{T}', 'base', 'root', 'sub', 'page.txt'], ['..', 'root2{T}', 'base', 'root', 'secret.txt'],
-           ['sub', '..', '..', '..', 'backup{T}', 'base', 'root', 'secret.txt']]
+           ['sub', '..', '..', '..', 'backup{T}', 'base', 'root', 'secret.txt'],
+           # characters that Unicode normalisation maps to '.', '/' or '\\' are ordinary characters (seeded change C16/12)
+           ['\u2025', 'decoy.txt'], ['\u2025', 'root2', 'secret.txt'], ['\uff0e\uff0e', 'root2', 'secret.txt'],
+           ['\uff0e\uff0e', '\uff0e\uff0e', 'top.txt'], ['\u2024\u2024', 'rootX', 'secret.txt'], ['sub', '\u2025', '\u2025', 'decoy.txt'],
+           ['\u2025\uff0froot2\uff0fsecret.txt'], ['\uff0e\uff0e\uff0fdecoy.txt'], ['\u2025\uff3croot2\uff3csecret.txt'],
+           ['\ufe52\ufe52', 'decoy.txt'], ['\u2025\ufe68..', 'decoy.txt'], ['\uff0e\uff0e', 'top.txt'], ['sub', '\u2024\u2024', 'index.html'],
+           ['\u2026', 'decoy.txt'], ['a\uff0fb.txt']]
 
 
 def mutate(rng, segs):
